@@ -1036,7 +1036,12 @@ class OdeSystem(object):
                         self.counter -= 1
 
                         sol_tuple = (self.__sol, prev_time, next_time)
-                        active_events, roots, end_int, evs = handle_events(sol_tuple, events, self.constants, direction, is_terminal, (requires_dstate,))
+                        try:
+                            active_events, roots, end_int, evs = handle_events(sol_tuple, events, self.constants, direction, is_terminal, (requires_dstate,))
+                        except BaseException:
+                            # the accepted step (and its interpolant) stays recorded when an event function fails
+                            self.counter += 1
+                            raise
 
                         if self.counter + len(roots) + 1 >= len(self.__y):
                             total_steps = self.__alloc_space_steps(tf - dTime) + 1 + len(roots)
